@@ -71,7 +71,7 @@ def run(ctx):
     ctx.audit("Slock.Properties.C12", THEOREMS)
     if ctx.tier == "thorough":
         ctx.leanchecker("Slock.Properties.C12")
-    exe = ctx.build_harness("server")
+    exe = ctx.build_harness("server", only=["zz_verif_elect_test.go"])
     if not exe:
         return
     n = 2000 if ctx.tier == "quick" else 40000
